@@ -34,8 +34,8 @@ claimed.update({
          "Decides the join-constructor table, the group-delta sign table and arc direction, the closed-flag and orientation source of NewGroup, the clean-up union's fill rule/reverse table, the sub-unit-delta fast path and X/Y pairing of constructed points. All distance statements are geometric and not decided.", "DESIGN.md §4 C05", NOTE),
  "C08": ("AST/SSA pattern rules (sign, orientation normaliser, wrap-around constants, no-skip) + entry wiring table",
          "Decides plus/minus on both axes, the entry flags and NonZero final union, positive-orientation normalisation of every quad, the closed/open wrap constants and that no vertex or segment is skipped. That the quads cover exactly the swept region is not decided.", "DESIGN.md §4 C08", NOTE),
- "C17": ("forbidden-construct and global-write scan over package and reachable dependency, strict-weak-order tables of comparison closures, sign-mirror of fill-rule arms (AST) and tables",
-         "Decides sentence 1 (bit-identical repeatability) completely modulo the standard library, that sort comparators are strict weak orders, that Negative arms are sign mirrors of Positive arms and that the contribution table ignores polytype for the symmetric clip types. Permutation/rotation/lattice invariance of the region is not decided.", "DESIGN.md §4 C17", NOTE),
+ "C17": ("forbidden-construct and global-write scan over package and reachable dependency, strict-weak-order tables of comparison closures, sign-mirror of fill-rule arms (AST) and tables, path-explored duplicate-vertex filter",
+         "Decides sentence 1 (bit-identical repeatability) completely modulo the standard library, that sort comparators are strict weak orders, that Negative arms are sign mirrors of Positive arms that the contribution table ignores polytype for the symmetric clip types and that the vertex-ring builder drops exactly the consecutive duplicates. Permutation/rotation/lattice invariance of the region is not decided.", "DESIGN.md §4 C17", NOTE),
 })
 claimed.update({
  "C03": ("explicit-panic inventory with premise checks, interval analysis of make sizes, divisor scan, constant-index preconditions pushed to call sites, must-store dataflow for the success flag, ring-walk polarity",
